@@ -14,6 +14,7 @@ import (
 	"path/filepath"
 	"sort"
 	"strings"
+	"sync"
 
 	"golang.org/x/tools/go/packages"
 	"golang.org/x/tools/go/ssa"
@@ -33,6 +34,41 @@ func (e AnalysisError) Error() string { return e.Msg }
 // Fatal aborts the analysis with an ANALYSIS-ERROR.
 func Fatal(format string, a ...interface{}) {
 	panic(AnalysisError{fmt.Sprintf(format, a...)})
+}
+
+// Strict makes Blind fatal. It is set when the checker validates itself on the unchanged tree
+// (flag -strict): there, a rule that finds fewer instances than expected, or a property selector
+// that matches nothing, means the checker went blind. On an arbitrary tree the same condition
+// only means that the code has a different shape: nothing to check is not a violation and not an
+// error, so it is recorded (and shown in the evidence) and the run goes on.
+var Strict bool
+
+var (
+	blindMu    sync.Mutex
+	blindNotes []string
+)
+
+// Blind reports that a rule (or a selector) found fewer instances than the unchanged tree has.
+func Blind(format string, a ...interface{}) {
+	msg := fmt.Sprintf(format, a...)
+	if Strict {
+		panic(AnalysisError{msg})
+	}
+	blindMu.Lock()
+	defer blindMu.Unlock()
+	for _, n := range blindNotes {
+		if n == msg {
+			return
+		}
+	}
+	blindNotes = append(blindNotes, msg)
+}
+
+// BlindNotes returns the notes recorded so far.
+func BlindNotes() []string {
+	blindMu.Lock()
+	defer blindMu.Unlock()
+	return append([]string(nil), blindNotes...)
 }
 
 // Config selects one build configuration.
